@@ -84,6 +84,4 @@ Definition exp_c (s : st) : list val := if is_nohist (c_c s) then db_c s else op
 (* a deleted collection attribute whose captured value is not empty: its history is blank *)
 Definition coll_deleted (s : st) : bool :=
   match c_c s, c_d s with CVal (_ :: _), None => true | _, _ => false end.
-Definition flush_guard (s : st) : bool :=
-  negb (persistent s && negb (is_nohist (x_c s)) && negb (is_some (x_d s)))
-  && negb (coll_deleted s).
+Definition flush_guard (s : st) : bool := negb (coll_deleted s).
